@@ -6,7 +6,7 @@ def run(ck):
     nt, ng = (3, 3) if ck.thorough else (3, 2)
     ck.rule = ("TLC enumerates every registration table (virtual handlers: subsets of %d types x %d nodes; node-wide handlers and client handlers: "
                "subsets of the types), proves the transcribed nested-map lookup equal to the statement and emits, per table, the expected outcome of "
-               "every incoming stream (chord: type x (registered nodes + one unregistered node); client: type); each table is installed into a real "
+               "every incoming stream (chord: (types + one type without handlers) x (registered nodes + one unregistered node + 3 ids >= 2^48 per node that share its low 48 bits); client: type); each table is installed into a real "
                "StreamRouter (seeded registration order, seeded node ids, seeded arrival order) fed through channel-backed stub transports; "
                "one evaluation = one incoming stream; non-trivial = every (table, stream) pair (distinct inputs)" % (nt, ng))
 
@@ -54,8 +54,8 @@ def run(ck):
     total = 0
     for (a, b) in ([(nt, ng), (4, 2)] if ck.thorough and ck.replay is None else [(nt, ng)]):
         if ck.replay is not None:       # a replayed table carries its own dimensions
-            a = max([x["kind"] for x in ck.replay["e"]])
-            b = max([x["target"] for x in ck.replay["e"]]) - 1
+            a = max([x["kind"] for x in ck.replay["e"]]) - 1
+            b = (max([x["target"] for x in ck.replay["e"]]) - 1) // 4
         cases, byi = vf.table_check(ck, "Router", "MC_Router.cfg", "c42router", drv_args=[str(a), str(b)],
                                     constants={"NTypes": a, "NTargets": b}, judge=judge, sig=sig)
         total += sum(len(c["e"]) for c in cases)
